@@ -163,7 +163,8 @@ def r2(ctx):
 def r1(ctx):
     q = "_url:get_proxy_info"
     loc = ctx.index.loc(ctx.index.func(q).node)
-    for exempt, opt_host, opt_port, env, secure in itertools.product((False, True), (False, True), (0, 3128), ({}, {"http_proxy": "http://u:p@hp:81"}, {"https_proxy": "http://sp:82"}, {"HTTP_PROXY": "http://HP:83"}, {"http_proxy": "http://hp:81", "https_proxy": "http://sp:82"}), (False, True)):
+    for exempt, opt_host, opt_port, env, secure in itertools.product((False, True), (False, True), (0, 3128), ({}, {"http_proxy": "http://u:p@hp:81"}, {"https_proxy": "http://sp:82"}, {"HTTP_PROXY": "http://HP:83"}, {"http_proxy": "http://hp:81", "https_proxy": "http://sp:82"},
+                                                                                                                          {"http_proxy": "http://u%40x@hp:81", "https_proxy": "http://u@sp:82"}), (False, True)):
         if not opt_host and opt_port:
             continue
         stubs = _fold_stubs(env)
@@ -176,7 +177,17 @@ def r1(ctx):
             return new_obj(run, None, "purl", hostname=C(p.hostname), port=C(p.port), username=C(p.username), password=C(p.password))
 
         stubs["urllib.parse.urlparse"] = urlparse
-        stubs["urllib.parse.unquote"] = lambda I, run, a, k, n: a[0]
+        def unq(I, run, args, kwargs, node):
+            import urllib.parse as up
+            v = I.resolve(run, args[0])
+            if isinstance(v, C):
+                try:
+                    return C(up.unquote(v.v))
+                except TypeError:
+                    I.raise_builtin(run, "TypeError", node, C("unquote() of a non-string"))
+            return args[0]
+
+        stubs["urllib.parse.unquote"] = unq
         I = Interp(ctx.index, Config(stubs=stubs))
 
         def body(run):
@@ -195,7 +206,7 @@ def r1(ctx):
             if val:
                 import urllib.parse as up
                 p = up.urlparse(val)
-                want = ("ret", (p.hostname, p.port, (p.username, p.password) if p.username else None))
+                want = ("ret", (p.hostname, p.port, (up.unquote(p.username), up.unquote(p.password) if p.password is not None else None) if p.username else None))
             else:
                 want = ("ret", (None, 0, None))
         o = outs[0] if len(outs) == 1 else None
@@ -213,7 +224,7 @@ def r1(ctx):
                     return v.name
                 return repr(v)
             got = ("ret", py(o.value))
-        key = f"{q}:exempt={exempt}:option={'host:' + str(opt_port) if opt_host else 'none'}:env={','.join(sorted(env))}:{'wss' if secure else 'ws'}"
+        key = f"{q}:exempt={exempt}:option={'host:' + str(opt_port) if opt_host else 'none'}:env={','.join(k + ('(user-only)' if '@' in v and ':' not in v.split('//', 1)[1].split('@')[0] else '(user:pw)' if '@' in v else '') for k, v in sorted(env.items()))}:{'wss' if secure else 'ws'}"
         ctx.ob(key, got == want, f"{got[1]}" if got == want else f"returns {got}, documented decision gives {want}", loc)
         # exemption consulted first, with the target host and the no_proxy option
         if o is not None and not (o.effects and o.effects[0].name == "exempt?" and o.effects[0].args[0] == C("target.example")):
